@@ -95,18 +95,21 @@ PROPS['C01'] = dict(
     lean_modules=['FluentVerif.Props.C01'],
     theorems=['FV.C01_Message', 'FV.C01_MessageExt', 'FV.C01_Forward', 'FV.C01_Packed', 'FV.C01_Entry', 'FV.C01_EntryExt',
               'FV.C01_Options', 'FV.C01_Ack', 'FV.C01_HeloOpts', 'FV.C01_Helo', 'FV.C01_Ping', 'FV.C01_Pong',
-              'FV.C01_alt_record', 'FV.C01_concat_Message'],
+              'FV.C01_alt_record', 'FV.C01_concat_Message', 'FV.C01_alt_Message', 'FV.C01_alt_MessageExt', 'FV.C01_alt_Forward',
+              'FV.C01_alt_Packed', 'FV.C01_alt_Options', 'FV.parse_inv', 'FV.classify_imm_nil_all'],
     suites=[_RT_SUITE, _CODEC_SUITE],
     rule=_RT_RULE + ' || ' + _CODEC_RULE,
     explanation="C01_T: for every representable message, T.unmarshal p recv (T.marshal m ++ x) = ok (norm m) x for both "
                 "decoder paths, every receiver and every trailing x; C01_alt_record: every legal encoding of a plain record "
-                "decodes to the object the specification parser finds; C01_concat. Correspondence (rt): the encoder model "
+                "decodes to the object the specification parser finds; C01_alt_Message / MessageExt / Forward / Packed / Options: "
+                "whatever conforming encoding the specification parser finds for a mode (time as any integer width or any ext "
+                "format, options in any order with unknown keys of any shape and repeated keys, nil options), the decoder returns "
+                "exactly that message on both paths into any receiver; C01_concat. Correspondence (rt): the encoder model "
                 "equals the bytes of both real encoder paths, the decoder model equals both real decoders, and the oracle "
                 "checks that the real round trip returns the original value with nothing left and that MarshalMsg only "
                 "appends; (codec, class a): alternative legal encodings from an independent encoder decode as the model says.",
     assumptions=_CODEC_ASSUME + ["Go map iteration order is recovered from the observed bytes; theorems hold for every order",
-                                 "message-level theorem for alternative encodings of the fixed fields and option maps "
-                                 "(other widths, unknown keys) is covered by correspondence + C13/C01_alt_record, not yet by one theorem"],
+                                 "classify_imm_nil_all is a `decide +kernel` over the finite table of the 256 lead bytes (kernel evaluation, no extra axiom)"],
 )
 
 PROPS['C02'] = dict(
